@@ -139,7 +139,16 @@ fn parse_script(s: &str) -> Vec<Entry> {
 struct MockErr(u8);
 impl embedded_io::Error for MockErr {
     fn kind(&self) -> embedded_io::ErrorKind {
-        embedded_io::ErrorKind::Other
+        // The error CODE is opaque to the code under test and must come back unchanged; its KIND varies with the
+        // code so that an implementation treating some kinds specially (retrying on Interrupted, mapping WriteZero, ...)
+        // is exercised: the scripted codes are drawn from 1..=255, so every kind occurs.
+        use embedded_io::ErrorKind::*;
+        const KINDS: [embedded_io::ErrorKind; 18] = [
+            Other, NotFound, PermissionDenied, ConnectionRefused, ConnectionReset, ConnectionAborted, NotConnected,
+            AddrInUse, AddrNotAvailable, BrokenPipe, AlreadyExists, InvalidInput, InvalidData, TimedOut, Interrupted,
+            Unsupported, OutOfMemory, WriteZero,
+        ];
+        KINDS[self.0 as usize % KINDS.len()]
     }
 }
 
